@@ -1,26 +1,8 @@
 // ------------------------------------------------------------------ staking.rs : reward arithmetic (C15)
 //@ item! src/staking.rs :: const YEAR
 //@ item! src/staking.rs :: struct Shares
-//@ item src/staking.rs :: struct ValidatorInfo
-//@   replace "stakers: BTreeSet<Addr>," => "stakers: BTreeSet<Addr>,"
-//@ end
-
-// exact value of calculate_rewards (Decimal atomics), when no intermediate result overflows 128 bits:
-//   reward = ((stake * 10^18) * apr / 10^18) * (dt_nanos * 10^9) / 10^18) * 10^18 / (YEAR * 10^18)      (floors at each step)
-//   result = reward - reward * commission / 10^18
-pub open spec fn year_nat() -> nat { 31_536_000 }
-pub open spec fn reward_gross(stake: nat, apr: nat, dt_nanos: nat) -> nat {
-    ddiv(dmul(dmul(dratio(stake, 1), apr), dratio(dt_nanos, 1_000_000_000)), dratio(year_nat(), 1))
-}
-pub open spec fn reward_net(stake: nat, apr: nat, comm: nat, dt_nanos: nat) -> nat {
-    let g = reward_gross(stake, apr, dt_nanos);
-    (g - dmul(g, comm)) as nat
-}
-pub open spec fn calc_fits(stake: nat, apr: nat, comm: nat, dt_nanos: nat) -> bool {
-    &&& fits(dratio(stake, 1)) && fits(dmul(dratio(stake, 1), apr)) && fits(dratio(dt_nanos, 1_000_000_000))
-    &&& fits(dmul(dmul(dratio(stake, 1), apr), dratio(dt_nanos, 1_000_000_000))) && fits(dratio(year_nat(), 1))
-    &&& fits(reward_gross(stake, apr, dt_nanos)) && fits(dmul(reward_gross(stake, apr, dt_nanos), comm))
-}
+//@ item! src/staking.rs :: struct ValidatorInfo
+//@ item! src/staking.rs :: struct StakeKeeper
 
 //@ impl_open src/staking.rs :: Shares
 //@ end
@@ -32,7 +14,6 @@ pub open spec fn calc_fits(stake: nat, apr: nat, comm: nat, dt_nanos: nat) -> bo
 }
 
 //@ impl_open src/staking.rs :: StakeKeeper
-//@   pick fn calculate_rewards
 //@ end
 //@ fn src/staking.rs :: StakeKeeper :: calculate_rewards
 //@   ret r
@@ -44,16 +25,3 @@ pub open spec fn calc_fits(stake: nat, apr: nat, comm: nat, dt_nanos: nat) -> bo
 //@ end
 }
 
-pub proof fn lemma_year()
-    ensures 60u64 * 60 * 24 * 365 == 31_536_000u64
-{
-}
-// x * c / 10^18 <= x for c <= 10^18
-pub proof fn lemma_dmul_le(x: nat, c: nat)
-    requires c <= dec_one()
-    ensures dmul(x, c) <= x
-{
-    assert(x * c <= x * dec_one()) by (nonlinear_arith) requires c <= dec_one();
-    assert(x * dec_one() / dec_one() == x) by (nonlinear_arith);
-    assert(x * c / dec_one() <= x * dec_one() / dec_one()) by (nonlinear_arith) requires x * c <= x * dec_one();
-}
